@@ -26,6 +26,8 @@ pub fn cfg() -> Cfg {
         // four modules: lib/b.oal imports its sibling lib/c.oal by a path relative to itself
         max_modules: 4,
         shadow_pct: 15,
+        // every case: rec binders named like something the statement uses in front of them
+        rec_shadow_every: 1,
         ..Cfg::default()
     }
 }
